@@ -25,7 +25,7 @@ func zigzagEncode(value int) uint32 {
 }
 
 func zigzagDecode(value uint32) int {
-	return int((int32(value) >> 1) ^ (-(int32(value) & 1)))
+	return int(int32(value>>1) ^ (-(int32(value) & 1)))
 }
 
 func EncodeTile(location b6.Tile, content *Tile) *pb.TileProto {
